@@ -145,12 +145,15 @@ def reader_work(exe, mode, start, items):
 
 # ------------------------------------------------------------------------------------------------------------------------------
 # Monitor 2
-SOLVER_FAMILIES = ["cons", "pin", "obj", "sv", "rr", "tl", "rules", "examples"]
+SOLVER_FAMILIES = ["cons", "tp", "pin", "obj", "sv", "rr", "tl", "rules", "sx", "cyc", "examples"]
+TINY_FAMILIES = ("cons", "tp", "pin", "sx")       # a handful of variables / at most five atoms: a search that does not finish in minutes does not terminate
 
 
 def gen_solver_case(family, rnd, idx):
     if family == "cons":
         return rgen.gen_cons(rnd, idx)
+    if family == "tp":
+        return rgen.gen_tp(rnd, idx)
     if family == "pin":
         return rgen.gen_pin(rnd, idx)
     if family == "obj":
@@ -169,6 +172,15 @@ def solver_work(exes, family, start, n):
         fp = common.fingerprint([family, case["text"]])
         st = out.status
         part.count("solver(%s): programs" % variant)
+        if st == "timeout" and family in TINY_FAMILIES:
+            # re-run once with a generous budget before calling it a hang
+            out = solverlib.run_probe(exes[variant], case.get("texts") or [case["text"]], timeout=150.0)
+            st = out.status
+            if st == "timeout":
+                part.case(fp, True, {"family": family, "variant": variant, "outcome": "no termination", "program": case["text"][:600]})
+                part.violation("valid-program/no-termination/%s" % family, "read()+solve() of a tiny valid %s program does not return within 30 s nor, re-run, within 150 s (%s build)" % (family, variant),
+                               {"family": family, "variant": variant, "program": case["text"]})
+                continue
         if st == "timeout":
             part.inconc("solver search did not finish in 30 s (%s)" % family)
             continue
